@@ -188,7 +188,7 @@ class Real:
 
     def get_state(self):
         st = self.server.state
-        sa = st.last_sa_response
+        sa = getattr(st, "last_sa_response", None)  # a state object without the attribute is the server's problem, not the observer's
         return (int(st.session), None if st.security_access_level is None else int(st.security_access_level),
                 None if sa is None else (int(sa.security_access_type), bytes(sa.security_seed)))
 
